@@ -362,8 +362,10 @@ pub struct EnvCfg {
 	pub max: u32,
 	pub http: bool,
 	pub ws: bool,
-	/// `(ping_interval, inactive_limit)` in ms; `max_failures = 1`
+	/// `(ping_interval, inactive_limit)` in ms
 	pub ping: Option<(u64, u64)>,
+	/// `max_failures` of the ping config
+	pub ping_failures: usize,
 	pub buffer: u32,
 }
 
@@ -403,7 +405,7 @@ pub async fn start_env(cfg: &EnvCfg) -> Env {
 	}
 	if let Some((iv, lim)) = cfg.ping {
 		b = b.enable_ws_ping(
-			PingConfig::new().ping_interval(Duration::from_millis(iv)).inactive_limit(Duration::from_millis(lim)).max_failures(1),
+			PingConfig::new().ping_interval(Duration::from_millis(iv)).inactive_limit(Duration::from_millis(lim)).max_failures(cfg.ping_failures.max(1)),
 		);
 	}
 	let scfg = b.build();
